@@ -110,8 +110,10 @@ Definition estep (g : eghost) (o : op) : option eghost :=
   | OShow w | OHide w | OFocus w | OSteal w _ | OExpose w | OGetRoot w | OBind w _ _ _ _ _ | OUnbind w _ | OGeom w =>
     if eusable g (idx w) then Some g else None
   | OFlush w => if Nat.eqb (idx w) O && eusable g O then Some g else None
+  | OMouse MDrag => None          (* the drag state machine is outside this discipline (C08_no_fault_events is partial there) *)
   | OKey | OMouse _ | ONop => Some g
-  (* the library's frames *)
+  (* the library's frames (written into the trace by the dispatch functions only: in a script these two do nothing
+     and are not recorded) *)
   | OFrameRef w =>
     if ealive g (idx w) then Some (eupd g (idx w) (fun x => mkE (e_cnt x) (e_fr x + 1) (e_par x) (e_closed x))) else None
   | OFrameUnref w =>
@@ -137,10 +139,3 @@ Definition wf_trace (tr : list op) : bool :=
   match echeck e0 (rev tr) with Some _ => true | None => false end.
 Definition all_dropped_e (g : eghost) : bool := forallb (fun x => (e_cnt x =? 0) && (e_fr x =? 0)) g.
 
-(* a script (and the handlers it binds, at any depth) made of client calls only *)
-Fixpoint client_op (o : op) : bool :=
-  match o with
-  | OFrameRef _ | OFrameUnref _ => false
-  | OBind _ _ _ _ _ acts => forallb client_op acts
-  | _ => true
-  end.
